@@ -1037,8 +1037,30 @@ func (s *Sim) maintain() {
 			s.recoverSubject(kit.Pick(s.R, dead), true)
 		}
 	}
-	if s.realSubj.V.Real && !s.bHalted && !s.active(s.realSubj) && s.R.Chance(1, 3) {
+	if s.realSubj.V.Real && !s.bHalted && !s.active(s.realSubj) && s.R.Chance(1, 7) {
 		s.recoverSubject(s.realSubj, true)
+	}
+}
+
+// opRealHostile makes the real client unusable (conflicting header, misbehaviour or expiry)
+// so that its consumers are exercised against a Frozen / Expired client.
+func (s *Sim) opRealHostile() bool {
+	sub := s.realSubj
+	if !s.active(sub) || !sub.V.Real {
+		return false
+	}
+	switch s.R.Intn(4) {
+	case 0:
+		return s.opMisb(sub, s.R.Bool())
+	case 1:
+		p := sub.Prev
+		c := p.ConsDec[p.Latest()]
+		if c == nil {
+			return false
+		}
+		return s.jumpTo(c.Timestamp.Add(p.CS.TrustingPeriod).Add(kit.Pick(s.R, edge)), "expiry-of-real-client")
+	default:
+		return s.opConflict(sub)
 	}
 }
 
@@ -1088,6 +1110,7 @@ func (s *Sim) Step(pr Profile) {
 		{pr.GateV2, on(anyS, s.opGateV2)},
 		{pr.GateRecv, s.opGateProof},
 		{pr.GateSend, s.opGateSend},
+		{pr.RealHostile, s.opRealHostile},
 		{pr.HonestReal, func() bool {
 			if s.bHalted {
 				return false
@@ -1097,6 +1120,10 @@ func (s *Sim) Step(pr Profile) {
 			}
 			return s.opHonestReal()
 		}},
+	}
+	// consumers of the real client while it is not Active
+	if pr.GateRecv > 0 && !s.active(s.realSubj) && s.R.Chance(1, 3) && s.opGateProof() {
+		return
 	}
 	tot := 0
 	for _, o := range ops {
